@@ -5,15 +5,16 @@
 // while one consumer follows a generated stall script (parked inside Consume on a
 // gate the harness controls — no sleeps), optionally one consumer panics at a
 // generated packet, and one healthy consumer just records.
-//   (a) isolation: the healthy consumer receives the whole log in order whatever
-//       the others do, and every WriteRtpPacket call returns while a consumer is
-//       parked (the test goroutine itself is the publisher);
-//   (b) a panicking consumer is closed and leaves the consumer count;
-//   (c) bound: after every publish the stalled consumer's backlog is at most
-//       1000 + G (+1 packet in flight);
-//   (d) alignment: what the stalled consumer finally received is the log minus
-//       runs that each start at a key-frame start packet and end just before a
-//       key-frame start packet.
+//
+//	(a) isolation: the healthy consumer receives the whole log in order whatever
+//	    the others do, and every WriteRtpPacket call returns while a consumer is
+//	    parked (the test goroutine itself is the publisher);
+//	(b) a panicking consumer is closed and leaves the consumer count;
+//	(c) bound: after every publish the stalled consumer's backlog is at most
+//	    1000 + G (+1 packet in flight);
+//	(d) alignment: what the stalled consumer finally received is the log minus
+//	    runs that each start at a key-frame start packet and end just before a
+//	    key-frame start packet.
 package c04
 
 import (
@@ -37,15 +38,16 @@ const bound = 20 * time.Second
 const limit = 1000 // the documented backlog limit
 
 type plan struct {
-	Codec     string `json:"codec"`
-	CacheGop  bool   `json:"cache_gop"`
-	GopFrames int    `json:"gop_frames"`
-	Frames    int    `json:"frames"`
-	Packets   int    `json:"packets"`
-	MaxG      int    `json:"max_key_spacing_packets"`
-	Stalls    [][2]int `json:"stalls"` // [park when the consumer has received n packets, release after the publisher has written m packets]
-	PanicAt   int    `json:"panic_at"`
-	KeyShape  string `json:"key_shape"`
+	Codec       string   `json:"codec"`
+	CacheGop    bool     `json:"cache_gop"`
+	GopFrames   int      `json:"gop_frames"`
+	Frames      int      `json:"frames"`
+	Packets     int      `json:"packets"`
+	MaxG        int      `json:"max_key_spacing_packets"`
+	Stalls      [][2]int `json:"stalls"` // [park when the consumer has received n packets, release after the publisher has written m packets]
+	PanicAt     int      `json:"panic_at"`
+	ClosePanics bool     `json:"close_panics_too,omitempty"`
+	KeyShape    string   `json:"key_shape"`
 
 	cdc  esgen.Codec
 	pubs []*mediah.Pub
@@ -110,8 +112,8 @@ func genPlan(t *rapid.T) *plan {
 	ts := uint32(1000)
 	type meta struct {
 		keyStart, anyKey, vcl bool
-		ps                   map[byte]bool
-		desc                 string
+		ps                    map[byte]bool
+		desc                  string
 	}
 	add := func(payload []byte, m meta, marker bool) {
 		pk := rtppack.Pkt{PT: 96, Seq: seq, TS: ts, SSRC: 9, Marker: marker, Payload: payload}
@@ -187,16 +189,17 @@ func genPlan(t *rapid.T) *plan {
 	}
 	if rapid.IntRange(0, 2).Draw(t, "panic?") == 0 {
 		pl.PanicAt = rapid.IntRange(1, len(pl.pubs)/2).Draw(t, "panicAt")
+		pl.ClosePanics = rapid.Bool().Draw(t, "closePanicsToo")
 	}
 	return pl
 }
 
 type result struct {
-	Plan      *plan `json:"plan"`
-	Received  int   `json:"stalled_received"`
-	Gaps      [][2]int `json:"dropped_runs"`
-	MaxBack   int   `json:"max_backlog"`
-	BackAt    int   `json:"max_backlog_after_packet"`
+	Plan     *plan    `json:"plan"`
+	Received int      `json:"stalled_received"`
+	Gaps     [][2]int `json:"dropped_runs"`
+	MaxBack  int      `json:"max_backlog"`
+	BackAt   int      `json:"max_backlog_after_packet"`
 }
 
 func TestStallIsolationAndGopAlignedDrops(t *testing.T) {
@@ -220,6 +223,7 @@ func TestStallIsolationAndGopAlignedDrops(t *testing.T) {
 		if pl.PanicAt > 0 {
 			bad = mediah.NewRec("panics")
 			bad.PanicAt = pl.PanicAt
+			bad.ClosePanics = pl.ClosePanics
 			s.StartConsume(bad, media.RTPPacket, "panics")
 		}
 		res := &result{Plan: pl}
@@ -294,6 +298,9 @@ func TestStallIsolationAndGopAlignedDrops(t *testing.T) {
 				evid.Violation(t, "panic-delivery", res, "consumer that panicked at packet %d received %d packets", pl.PanicAt, n)
 			}
 			evid.Class("with a panicking consumer")
+			if pl.ClosePanics {
+				evid.Class("with a consumer that panics in Consume and in Close")
+			}
 		}
 		// (d) alignment
 		sg := stalled.Got()
